@@ -2869,6 +2869,43 @@ func unrenderableDetailProbe(c *Ctx) {
 			if want := `code=resource_exhausted message="quota" X-Why=["w1"]`; got != want {
 				c.Fail("rt-error-unrenderable-detail", desc, got, "the error reaches the client with its code, message and metadata: "+want)
 			}
+			// both at once (round 12, C05-mq): a detail that cannot be rendered *and* a message that
+			// is not valid UTF-8 - each repaired on its own (F38, F23); together they must not
+			// cost the response its shape either
+			failBoth := func() error {
+				e := connect.NewError(connect.CodeResourceExhausted, errors.New("quota \xff exceeded"))
+				e.AddDetail(&anypb.Any{TypeUrl: "type.googleapis.com/acme.v1.NotLinkedIn", Value: []byte{8, 1}})
+				return e
+			}
+			var hb *connect.Handler
+			if kind == "unary" {
+				hb = connect.NewUnaryHandler("/s/m", func(ctx context.Context, r *connect.Request[[]byte]) (*connect.Response[[]byte], error) {
+					return nil, failBoth()
+				}, connect.WithCodec(rawCodec{"raw"}))
+			} else {
+				hb = connect.NewServerStreamHandler("/s/m", func(ctx context.Context, r *connect.Request[[]byte], s *connect.ServerStream[[]byte]) error {
+					_ = s.Send(&[]byte{1})
+					return failBoth()
+				}, connect.WithCodec(rawCodec{"raw"}))
+			}
+			descB := fmt.Sprintf("%s %s handler returns resource_exhausted with a message that is not valid UTF-8 and a detail of a type this binary does not know", proto, kind)
+			c.Count("unrenderable-detail-probe")
+			gotB := safely(func() string {
+				rec := serveReal(proto, kind, false, hb)
+				enc, _ := encHeaderFor(proto, kind)
+				_, note := canonicalResponse(proto, kind, rec.status, rec.header, rec.trailer, rec.body, enc)
+				hc := &staticClient{status: rec.status, header: rec.header, trailer: rec.trailer, body: rec.body}
+				v := callClient(proto, kind, hc, nil, [][]byte{{1}})
+				var ce *connect.Error
+				if !errors.As(v.err, &ce) {
+					return fmt.Sprintf("no coded error: %v", v.err)
+				}
+				return fmt.Sprintf("code=%s malformed=%q", ce.Code(), note)
+			})
+			if gotB != `code=resource_exhausted malformed=""` {
+				c.Fail("wire-error-shape-lost", descB, gotB, "the response is well-formed for the protocol and carries the error's code")
+				c.Fail("rt-error-code", descB, gotB, "the client received another code than resource_exhausted")
+			}
 		}
 	}
 }
